@@ -5,95 +5,138 @@ From Hts Require Import Base.Prim Base.Bits Generated Model.BamCodec Base.BytesL
 Import ListNotations.
 Open Scope Z_scope.
 
-Lemma record_roundtrip_omit nrefs r omit sh sp :
-  valid_rec nrefs r = true -> 0 <= sp ->
+Lemma record_roundtrip_omit nrefs r omit sh :
+  valid_rec nrefs r = true ->
   exists body,
     encode_record r = Ok (le_put 4 (zlen body) ++ body) /\
     zlen body = block_size r /\
-    decode_record omit nrefs sh sp body = Ok (omit_view omit (canon r), false).
+    decode_record omit nrefs sh body = Ok (omit_view omit (canon r), false).
 Proof.
-  intros Hv Hsp. destruct (encode_valid nrefs r Hv) as [tags [bin [Hb [He Hl]]]].
+  intros Hv. destruct (encode_valid nrefs r Hv) as [tags [bin [Hb [He Hl]]]].
   exists (body_of r tags bin). split; [assumption|]. split; [assumption|].
   apply decode_body; assumption.
 Qed.
 
-(** The three Omit modes, spelled out. *)
-Lemma omit_view_none r : omit_view bam_None r = r.
-Proof. reflexivity. Qed.
-Lemma omit_view_aux r :
-  omit_view bam_AuxTags r
-  = mkRec (r_name r) (r_ref r) (r_pos r) (r_mapq r) (r_cigar r) (r_flags r) (r_mref r) (r_mpos r)
-          (r_tlen r) (r_lseq r) (r_seq r) (r_qual r) [].
-Proof. reflexivity. Qed.
-Lemma omit_view_all r :
-  omit_view bam_AllVariableLengthData r
-  = mkRec (r_name r) (r_ref r) (r_pos r) (r_mapq r) (r_cigar r) (r_flags r) (r_mref r) (r_mpos r)
-          (r_tlen r) 0 [] None [].
-Proof. reflexivity. Qed.
-
-Lemma omit_modes nrefs r sh sp :
-  valid_rec nrefs r = true -> 0 <= sp ->
+Lemma omit_modes nrefs r sh :
+  valid_rec nrefs r = true ->
   exists body,
     encode_record r = Ok (le_put 4 (zlen body) ++ body) /\
-    decode_record bam_None nrefs sh sp body = Ok (canon r, false) /\
-    decode_record bam_AuxTags nrefs sh sp body
+    decode_record bam_None nrefs sh body = Ok (canon r, false) /\
+    decode_record bam_AuxTags nrefs sh body
       = Ok (mkRec (r_name r) (r_ref r) (r_pos r) (r_mapq r) (r_cigar r) (r_flags r) (r_mref r) (r_mpos r)
                   (r_tlen r) (r_lseq r) (r_seq r) (Some (qual_bytes r)) [], false) /\
-    decode_record bam_AllVariableLengthData nrefs sh sp body
+    decode_record bam_AllVariableLengthData nrefs sh body
       = Ok (mkRec (r_name r) (r_ref r) (r_pos r) (r_mapq r) (r_cigar r) (r_flags r) (r_mref r) (r_mpos r)
                   (r_tlen r) 0 [] None [], false).
 Proof.
-  intros Hv Hsp. destruct (encode_valid nrefs r Hv) as [tags [bin [Hb [He Hl]]]].
+  intros Hv. destruct (encode_valid nrefs r Hv) as [tags [bin [Hb [He Hl]]]].
   exists (body_of r tags bin). split; [assumption|].
-  rewrite !(decode_body nrefs r _ sh sp tags bin Hv Hb Hsp). repeat split.
+  rewrite !(decode_body nrefs r _ sh tags bin Hv Hb). repeat split.
 Qed.
 
-(** The shared/private decision. *)
+(** The shared/private decision: no influence on any input. *)
 Lemma shared_irrelevant_all_inputs omit nrefs data :
-  decode_record omit nrefs true 0 data = decode_record omit nrefs false 0 data.
+  decode_record omit nrefs true data = decode_record omit nrefs false data.
 Proof. reflexivity. Qed.
 
-Lemma shared_irrelevant_valid nrefs r omit sh sh' sp sp' :
-  valid_rec nrefs r = true -> 0 <= sp -> 0 <= sp' ->
-  exists body,
-    encode_record r = Ok (le_put 4 (zlen body) ++ body) /\
-    decode_record omit nrefs sh sp body = decode_record omit nrefs sh' sp' body /\
-    (forall res, decode_record omit nrefs sh sp body = Ok res -> snd res = false).
+Lemma no_alias omit nrefs sh data res :
+  decode_record omit nrefs sh data = Ok res -> snd res = false.
 Proof.
-  intros Hv Hsp Hsp'. destruct (encode_valid nrefs r Hv) as [tags [bin [Hb [He Hl]]]].
-  exists (body_of r tags bin). split; [assumption|].
-  rewrite (decode_body nrefs r omit sh sp tags bin Hv Hb Hsp), (decode_body nrefs r omit sh' sp' tags bin Hv Hb Hsp').
-  split; [reflexivity|]. intros res H. injection H as <-. reflexivity.
+  unfold decode_record.
+  destruct (read_fixed bam_Read_fixed (data, false) (fun _ => 0)) as [env b].
+  destruct (env 3 <? 1); [discriminate|].
+  destruct (b_unsafe b (env 3 - 1)) as [nm b1].
+  destruct (b_unsafe (b_discard b1 1) (env 6 * 4)) as [cb b2].
+  match goal with |- obind ?v _ = _ -> _ => assert (Hv : forall x, v = Ok x -> fst (snd (fst x) , tt) = false) end.
+  { intros x.
+    destruct (bam_AllVariableLengthData <=? omit); [intros H; injection H as <-; reflexivity|].
+    destruct (env 8 <? 0); [discriminate|].
+    destruct (b_bytes sh b2 (Z.shiftr (env 8) 1 + Z.land (env 8) 1)) as [sq b3].
+    destruct (b_bytes sh b3 (env 8)) as [ql b4].
+    destruct (bam_AuxTags <=? omit); [intros H; injection H as <-; reflexivity|].
+    destruct (b_bytes sh b4 (b_len b4)) as [ax b5].
+    destruct (parse_aux (odef [] ax)); try discriminate. intros H; injection H as <-; reflexivity. }
+  match goal with |- obind ?v _ = _ -> _ => destruct v as [x| | |] eqn:Ev end; cbn [obind]; try discriminate.
+  specialize (Hv x eq_refl). destruct x as [[[[[ls sq] ql] aa] alias] berr]. cbn [fst snd] in Hv. subst alias.
+  destruct berr; [discriminate|].
+  destruct (if negb (env 1 =? -1) then if (env 1 <? -1) || (nrefs <=? env 1) then Err 12 else Ok (env 1) else Ok (-1)) as [ref| | |];
+    cbn [obind]; try discriminate.
+  destruct (negb (env 9 =? -1)).
+  - destruct (env 1 =? env 9); [intros H; injection H as <-; reflexivity|].
+    destruct ((env 9 <? -1) || (nrefs <=? env 9)); [discriminate|]. intros H; injection H as <-; reflexivity.
+  - intros H; injection H as <-; reflexivity.
 Qed.
 
-(** Where the spare capacity of the copy does matter: an aux field cut short. *)
+(** The decoder is total on byte strings: a record, or an error; no panic, no
+    non-termination (after the repairs of Reader.Read and parseAux). *)
+Lemma b_unsafe_bytes b n : all_bytes (fst b) = true ->
+  all_bytes (odef [] (fst (b_unsafe b n))) = true /\ all_bytes (fst (snd (b_unsafe b n))) = true.
+Proof.
+  destruct b as [d e]. cbn [fst]. intros H. unfold b_unsafe.
+  destruct e; [cbn; tauto|]. destruct (zlen d <? n); [cbn; tauto|].
+  cbn [fst snd odef]. unfold zfirstn, zskipn. split; [apply all_bytes_firstn|apply all_bytes_skipn]; assumption.
+Qed.
+
+Lemma b_discard_bytes b n : all_bytes (fst b) = true -> all_bytes (fst (b_discard b n)) = true.
+Proof.
+  destruct b as [d e]. cbn [fst]. intros H. unfold b_discard.
+  destruct e; [assumption|]. destruct (zlen d <? n); [assumption|]. cbn [fst]. apply all_bytes_skipn. assumption.
+Qed.
+
+Lemma b_read_bytes b w k : all_bytes (fst b) = true -> all_bytes (fst (snd (b_read b w k))) = true.
+Proof.
+  intros H. unfold b_read. destruct (k =? 2); [cbn [snd]; apply b_discard_bytes; assumption|].
+  destruct b as [d e]. cbn [fst] in H. destruct e; [assumption|]. destruct (zlen d <? w); [assumption|].
+  cbn [fst snd]. apply all_bytes_skipn. assumption.
+Qed.
+
+Lemma read_fixed_bytes l : forall b env, all_bytes (fst b) = true -> all_bytes (fst (snd (read_fixed l b env))) = true.
+Proof.
+  induction l as [|[[w k] dst] t IH]; intros b env H; [assumption|].
+  cbn [read_fixed]. pose proof (b_read_bytes b w k H) as Hb.
+  destruct (b_read b w k) as [v b']. cbn [snd] in Hb. apply IH. assumption.
+Qed.
+
+Theorem decode_total omit nrefs sh data :
+  all_bytes data = true -> ok_or_err (decode_record omit nrefs sh data).
+Proof.
+  intros Hd. unfold decode_record.
+  pose proof (read_fixed_bytes bam_Read_fixed (data, false) (fun _ => 0) Hd) as Hb0.
+  destruct (read_fixed bam_Read_fixed (data, false) (fun _ => 0)) as [env b]. cbn [snd] in Hb0.
+  destruct (env 3 <? 1); [right; eexists; reflexivity|].
+  destruct (b_unsafe_bytes b (env 3 - 1) Hb0) as [_ Hb1].
+  destruct (b_unsafe b (env 3 - 1)) as [nm b1]. cbn [fst snd] in Hb1.
+  pose proof (b_discard_bytes b1 1 Hb1) as Hb1'.
+  destruct (b_unsafe_bytes (b_discard b1 1) (env 6 * 4) Hb1') as [_ Hb2].
+  destruct (b_unsafe (b_discard b1 1) (env 6 * 4)) as [cb b2]. cbn [fst snd] in Hb2.
+  match goal with |- ok_or_err (obind ?v ?k) => assert (Hv : ok_or_err v) end.
+  { destruct (bam_AllVariableLengthData <=? omit); [left; eexists; reflexivity|].
+    destruct (env 8 <? 0); [right; eexists; reflexivity|].
+    unfold b_bytes.
+    destruct (b_unsafe_bytes b2 (Z.shiftr (env 8) 1 + Z.land (env 8) 1) Hb2) as [_ Hb3].
+    destruct (b_unsafe b2 (Z.shiftr (env 8) 1 + Z.land (env 8) 1)) as [sq b3]. cbn [fst snd] in Hb3.
+    destruct (b_unsafe_bytes b3 (env 8) Hb3) as [_ Hb4].
+    destruct (b_unsafe b3 (env 8)) as [ql b4]. cbn [fst snd] in Hb4.
+    destruct (bam_AuxTags <=? omit); [left; eexists; reflexivity|].
+    destruct (b_unsafe_bytes b4 (b_len b4) Hb4) as [Hax _].
+    destruct (b_unsafe b4 (b_len b4)) as [ax b5]. cbn [fst] in Hax.
+    destruct (parse_aux_total (odef [] ax) Hax) as [[aa ->]|[e ->]]; [left|right]; eexists; reflexivity. }
+  destruct Hv as [[x ->]|[e ->]]; cbn [obind]; [|right; eexists; reflexivity].
+  destruct x as [[[[[ls sq] ql] aa] alias] berr].
+  destruct berr; [right; eexists; reflexivity|].
+  destruct (negb (env 1 =? -1)); [destruct ((env 1 <? -1) || (nrefs <=? env 1)); cbn [obind]; [right; eexists; reflexivity|]|cbn [obind]];
+    (destruct (negb (env 9 =? -1)); [|left; eexists; reflexivity];
+     destruct (env 1 =? env 9); [left; eexists; reflexivity|];
+     destruct ((env 9 <? -1) || (nrefs <=? env 9)); [right|left]; eexists; reflexivity).
+Qed.
+
+(** The two inputs that used to show the defects, now rejected with errors. *)
 Definition cut_aux_record : list Z :=
   [255;255;255;255; 255;255;255;255; 2; 0; 0;0; 0;0; 0;0; 0;0;0;0; 255;255;255;255; 255;255;255;255; 0;0;0;0;
    97; 0; 88; 89; 105; 1; 2].
-
-Lemma spare_matters_on_cut_aux :
-  decode_record 0 0 true 0 cut_aux_record = Panic 3 /\
-  exists r, decode_record 0 0 true 2 cut_aux_record = Ok (r, false) /\ r_aux r = [[88; 89; 105; 1; 2; 0; 0]].
-Proof. split; [vm_compute; reflexivity|]. eexists. split; vm_compute; reflexivity. Qed.
-
-(** parseAux makes no progress on a B array whose subtype has a negative
-    jumps entry (Z, H or B) and whose count is 8: j = 8 * -1 + 8 = 0. *)
 Definition stuck_aux : list Z := [88; 89; 66; 90; 8; 0; 0; 0].
 
-Lemma parse_aux_no_progress : forall fuel spare, 0 <= spare -> parse_aux_loop fuel spare stuck_aux = Stuck.
-Proof.
-  induction fuel as [|f IH]; intros spare Hsp; [reflexivity|].
-  cbn [parse_aux_loop].
-  change (negb (2 <? zlen stuck_aux)) with false. cbv iota.
-  change (getz stuck_aux 2) with 66.
-  change (inb bam_jumps 66) with true. change (getz bam_jumps 66) with (-1).
-  unfold chk3 at 1. change (0 <? -1) with false. change (-1 <? 0) with true. cbv iota.
-  change ((66 =? 90) || (66 =? 72)) with false. change (66 =? 66) with true. cbv iota.
-  change (zlen stuck_aux) with 8. change (3 <? 8) with true.
-  change (getz stuck_aux 3) with 90. change (inb bam_jumps 90) with true. change (getz bam_jumps 90) with (-1).
-  replace (8 <=? 8 + spare) with true by (symmetry; apply Z.leb_le; lia). unfold chk3.
-  assert (Hl : le_get (zfirstn 4 (zskipn 4 (stuck_aux ++ repeat 0 (Z.to_nat spare)))) = 8).
-  { unfold stuck_aux. reflexivity. }
-  rewrite Hl. change (8 * -1 + 4 + 4) with 0. change ((0 <? 0) || (8 <? 0)) with false. cbv iota.
-  change (zskipn 0 stuck_aux) with stuck_aux. rewrite IH by assumption. reflexivity.
-Qed.
+Lemma former_witnesses :
+  decode_record 0 0 true cut_aux_record = Err 23 /\ decode_record 0 0 false cut_aux_record = Err 23
+  /\ parse_aux stuck_aux = Err 25.
+Proof. repeat split; vm_compute; reflexivity. Qed.
